@@ -24,7 +24,7 @@ def run_case(params, prefix):
     else:
         run_ = res["run"]
         if res.get("raised"):
-            fails.append((base + "|raised", f"run() raised {res['raised']} although every job fails fewer times than the retry "
+            fails.append((_recov.raised_key(params, run_, base), f"run() raised {res['raised']} although every job fails fewer times than the retry "
                                             f"limit; failures {run_.failure_log}; executions {run_.exec_log}"))
         elif res.get("ret_content") != res["expected"]:
             fails.append((base + "|outputs", f"outputs {res.get('ret_content')} differ from the failure-free run {res['expected']}; "
